@@ -14,7 +14,7 @@ func init() {
 		Title: "Services and routes can change while requests are being served",
 		Decided: "C12.a every field of a shared type that Add/Remove/Route/RemoveRoute store into is accessed, on the request and mutator paths, only while holding the lock under which it is written (the field set and its lock are re-derived from the code on every run); " +
 			"C12.b route selection and the load of the service list lie in one critical section; C12.c a selector returns only pointers into storage allocated during that call, never into a WebService's route slice; " +
-			"C12.d the lock-order graph is acyclic and has no self edge; C12.e no channel operation or http serving call happens while a lock is held. C12.g package variables written on the mutator or request path are written under a package-level lock or through sync/atomic; C12.h = C11.c (Remove's rebuild cannot register a pattern twice).",
+			"C12.d the lock-order graph is acyclic and has no self edge; C12.e no channel operation or http serving call happens while a lock is held. C12.g package variables written on the mutator or request path are written under a package-level lock or through sync/atomic; C12.h = C11.c (Remove's rebuild cannot register a pattern twice). C12.i = C10.c (no lock taken on the request path survives a panic of user code under it).",
 		NotDecided:  "that every request is answered according to a state that existed during the request beyond C12.b; races inside http.ServeMux (it has its own mutex); accesses to the exported Container.ServeMux field from user code; lock instances are not distinguished (field-based).",
 		Assumptions: []string{"sync.RWMutex provides mutual exclusion between Lock and RLock/Lock sections", "http.ServeMux is internally synchronised"},
 		Rules: []Rule{
